@@ -72,7 +72,7 @@ def REQUIRED_REACH(tier):
 MODS = ("pyxel.pipelines.processor", "pyxel.detectors.characteristics", "pyxel.exposure.readout", "pyxel.detectors.readout_properties") + DATA_MODULES
 
 
-def _state():
+def _state(sym_enabled=True):
     """Processor in an arbitrary valid state + a function returning the flat list of all its leaves."""
     from pyxel.data_structure import Persistence
     from pyxel.pipelines import DetectionPipeline, ModelFunction, Processor
@@ -103,11 +103,15 @@ def _state():
     d._persistence._trapped_charge_array = sym_array("trapped", (2,) + SHAPE) if hasattr(d._persistence, "_trapped_charge_array") else None
     if d._persistence._trapped_charge_array is None:
         d._persistence.trapped_charge_array = sym_array("trapped", (2,) + SHAPE)
+    def en(name):
+        # whether a model is switched on is part of the arbitrary state (copies must not treat switched-off models differently)
+        return bool(vx.boolean(f"{name}_enabled")) if sym_enabled else True
+
     pipe = DetectionPipeline(
         photon_collection=[ModelFunction(func="vxprobes.probe", name="m1", arguments={"level": vx.real("m1_level"), "opt": [vx.real("m1_opt0"), vx.real("m1_opt1")],
-                                                                                         "cfg": {"a": vx.integer("m1_cfg_a")}}, enabled=True),
-                           ModelFunction(func="vxprobes.probe_a", name="m2", arguments={"level": vx.real("m2_level")}, enabled=True)],
-        charge_generation=[ModelFunction(func="vxprobes.probe_b", name="m3", arguments={"level": vx.real("m3_level")}, enabled=True)],
+                                                                                         "cfg": {"a": vx.integer("m1_cfg_a")}}, enabled=en("m1")),
+                           ModelFunction(func="vxprobes.probe_a", name="m2", arguments={"level": vx.real("m2_level")}, enabled=en("m2"))],
+        charge_generation=[ModelFunction(func="vxprobes.probe_b", name="m3", arguments={"level": vx.real("m3_level")}, enabled=en("m3"))],
     )
     # the running mode the user passed in travels with the processor (exposure-time sweeps address it as `observation.readout.*`)
     from pyxel.exposure import Readout
@@ -195,7 +199,7 @@ def _havoc(proc):
     t += 3.0
     for grp in ("photon_collection", "charge_generation"):
         for m in getattr(proc.pipeline, grp).models:
-            m.enabled = False
+            m.enabled = not m.enabled
             for k, v in list(m.arguments._arguments.items()):
                 if isinstance(v, list):
                     v.append(fresh())
@@ -317,7 +321,7 @@ def run_mutating(n):
         p.numpy(*MODS)
         p.builtins("pyxel.detectors.environment", "isinstance", "float", "int")
         p.attr("pyxel.exposure.exposure", "_extract_datatree_2d", lambda detector: xr.DataTree(), "empty DataTree")
-        proc = _state()
+        proc = _state(sym_enabled=False)
         before = _leaves(proc)
 
         def hook(d, tag, kwargs, rec):
@@ -376,9 +380,9 @@ def replay(oid, kwargs, model, data):
     d._persistence = Persistence(trap_time_constants=[1.0, 10.0], trap_proportions=[0.5, 0.5], geometry=SHAPE)
     d._persistence.trapped_charge_array = np.full((2,) + SHAPE, 8.0)
     pipe = DetectionPipeline(
-        photon_collection=[ModelFunction(func="vxprobes.probe", name="m1", arguments={"level": 0.1, "opt": [0.2, 0.3], "cfg": {"a": 1}}),
-                           ModelFunction(func="vxprobes.probe_a", name="m2", arguments={"level": 0.4})],
-        charge_generation=[ModelFunction(func="vxprobes.probe_b", name="m3", arguments={"level": 0.5})])
+        photon_collection=[ModelFunction(func="vxprobes.probe", name="m1", arguments={"level": 0.1, "opt": [0.2, 0.3], "cfg": {"a": 1}}, enabled=bool(model.get("m1_enabled", True))),
+                           ModelFunction(func="vxprobes.probe_a", name="m2", arguments={"level": 0.4}, enabled=bool(model.get("m2_enabled", True)))],
+        charge_generation=[ModelFunction(func="vxprobes.probe_b", name="m3", arguments={"level": 0.5}, enabled=bool(model.get("m3_enabled", True)))])
     from pyxel.exposure import Readout
     from pyxel.observation import Observation
 
